@@ -112,14 +112,30 @@ func explore06(r *kit.Run, n, t int, agedKey bool) (int, int, string) {
 		batches = batches[:2] // larger n: two batch ids (the fixpoint grows with n * batches)
 		proposers = []int{0}
 	}
+	// Proposal and answers are stamped by different clocks (the proposer's node; each answering
+	// node): the second batch is proposed by a node whose clock is an hour ahead of everybody
+	// else's, so every answer to it is "older" than the proposal it answers.
+	proposal := func(p int, b Batch) storage.Message {
+		m := k.W.ProposalMessage(p, round, b.ID, b.Tasks)
+		if b.ID != "batch-2" {
+			return m
+		}
+		var req requests.SigningBatchProposalStartRequest
+		if err := json.Unmarshal(m.Data, &req); err != nil {
+			r.Infra("proposal does not parse: %v", err)
+		}
+		req.CreatedAt = world.Clock().Add(time.Hour)
+		nd := k.W.Nodes[p]
+		return world.SignedMessage(round, m.Event, world.MustJSON(req), nd.Name, nd.KeyPair.Priv, "")
+	}
 	var alphabet []in06
 	for _, b := range batches {
 		for _, p := range proposers {
-			m := k.W.ProposalMessage(p, round, b.ID, b.Tasks)
+			m := proposal(p, b)
 			alphabet = append(alphabet, in06{Label: fmt.Sprintf("propose(%s by %d)", b.ID, p), Kind: "proposal", Batch: b.ID, PID: p, Msg: m})
 		}
 		// genuine answers of every participant to this batch, produced by the real machines
-		s1 := k.PostMsg(sw.Init, k.W.ProposalMessage(0, round, b.ID, b.Tasks), "setup")
+		s1 := k.PostMsg(sw.Init, proposal(0, b), "setup")
 		s1, err := k.DrainEager(s1, nil)
 		if err != nil {
 			r.Infra("setup drain: %v", err)
